@@ -47,7 +47,7 @@ def programs(seed, n):
 
 
 def validate(ctx, trace, tag):
-    r = vlib.tlc("CacheTrace.tla", "CacheTrace.cfg", workers=1, timeout=3000, env={"TRACE": trace},
+    r = vlib.tlc("CacheTrace.tla", "CacheTrace.cfg", workers=1, timeout=12000, env={"TRACE": trace},
                  metadir=os.path.join(ctx.out, "tv-" + tag), heap="6g")
     if r.error or r.violated or r.printed("TOOLERR"):
         open(os.path.join(ctx.out, "tv-%s.log" % tag), "w").write(r.out)
@@ -73,7 +73,7 @@ def run(ctx):
     vlib.mc(ctx, "Cache.tla", "MCCache.cfg", workers=4, timeout=600)
     r = vlib.tlc("Cache.tla", "MCCacheNoPrune.cfg", workers=1, timeout=300, metadir=os.path.join(ctx.out, "mc-bad"))
     ctx.negative_control(r.violated in ("AfterList", "SameResults"), "model without cleaning on listing must violate AfterList")
-    progs = programs(ctx.seed, 25 if q else 500)
+    progs = programs(ctx.seed, 25 if q else 2000)
     by_id = {p["id"]: p for p in progs}
     pf = os.path.join(ctx.out, "programs.ndjson")
     open(pf, "w").write("\n".join(json.dumps(p) for p in progs) + "\n")
